@@ -153,6 +153,12 @@ def check(ctx):
     # either _chain builds new helper processors on every call, or those helpers hold nothing a run uses up
     from rules import independence as _ind
     _ind.r34_one_shot(ctx, helpers_only=True)
+    # results() differs from process() / datastream() only by passing every row through the schema validator: the three give the same
+    # rows only if the validator yields each row itself with, per checked field, the field's own cast of that row's value - a value
+    # shared between rows, or taken from another row, makes a later step's in-place edit visible in rows still upstream (shared clause
+    # with C14)
+    from checks import C14
+    C14.validator_loop(ctx)
     run.trusted += ['LF1 datapackage.Resource owns a private descriptor; Package.commit() snapshots',
                     'inspect.isfunction / inspect.signature / collections.abc.Iterable behave as documented']
     run.not_decided += ['behavioural equality of lazy and materialised evaluation over all step sequences and inputs '
